@@ -12,11 +12,41 @@ import core
 import tk
 
 
-def build(T, first_id=1):
+def build(T, first_id=1, order=("f",)):
+    """feature f holds the observation's id, g its negative, h ten times it; created in the given order"""
     t = tk.mk_track([float(first_id + i) for i in range(len(T))], ts=list(T))
     if len(T):
-        t.createAnalyticalFeature("f", [float(first_id + i) for i in range(len(T))])
+        for name in order:
+            k = {"f": 1.0, "g": -1.0, "h": 10.0}[name]
+            t.createAnalyticalFeature(name, [k * (first_id + i) for i in range(len(T))])
     return t
+
+
+TABLES = [("f",), ("f", "g"), ("g", "f"), ("f", "g", "h"), ("h", "f", "g"), ("g", "h", "f"), ("f", "h")]
+
+
+def concat_tables(T, n):
+    """t1 + t2 for operands whose feature tables are the same list, permutations of each other, or different sets:
+    every name listed on the result must read each observation's own value; equal tables must be carried over"""
+    bad = []
+    for o1 in TABLES:
+        for o2 in TABLES:
+            if (len(T) + TABLES.index(o1) + 2 * TABLES.index(o2)) % 3 and o1 != o2:
+                continue                  # a third of the pairs per track (all of them over the enumeration)
+            a, b = build(T, 1, o1), build(list(reversed(T)), n + 1, o2)
+            res = a + b
+            names = list(res.getListAnalyticalFeatures())
+            if o1 == o2 and names != list(o1):
+                bad.append("equal feature tables %s not carried over: %s" % (list(o1), names))
+            for name in names:
+                k = {"f": 1.0, "g": -1.0, "h": 10.0}.get(name)
+                for pos, o in enumerate(res.getObsList()):
+                    i = int(round(o.position.getX()))
+                    if k is None or res.getObsAnalyticalFeature(name, pos) != k * i:
+                        bad.append("tables %s + %s: feature %r of observation %d reads %r, its own value is %r"
+                                   % (list(o1), list(o2), name, i, res.getObsAnalyticalFeature(name, pos), None if k is None else k * i))
+                        break
+    return bad
 
 
 def ids(t):
@@ -72,6 +102,9 @@ def replay(cases):
                     res = src + other
                     if ids(other) != list(range(n + 1, 2 * n + 1)):
                         viol.append(("concat", "second operand modified", op))
+                    if n:
+                        for msg in concat_tables(T, n)[:2]:
+                            viol.append(("concat/feature-tables", "+ on timestamps %s: %s" % (T, msg), {"T": T, "op": op}))
                 else:
                     raise core.Machinery("unknown op " + name)
             except core.Machinery:
@@ -150,6 +183,7 @@ CONSTANTS
 INVARIANT OpsAreSubsequences
 INVARIANT Complement
 INVARIANT SearchKeepsSorted
+INVARIANT ConcatReadsOwnValues
 CHECK_DEADLOCK FALSE
 """ % (maxn, searchn, "TRUE" if emit else "FALSE")
 
@@ -165,6 +199,8 @@ def run(ctx):
                 "to size %d (+ random to 40) judged by TrackSeqTrace. Non-trivial = operator cases designating a proper "
                 "non-empty subset." % (maxn, searchn))
     ctx.assumptions += ["observation identity is a unique x coordinate + feature value", "% n with n >= 1; trims with n >= 0"]
+    ctx.tlc_mc("TrackSeq", ctx.write_cfg("TS_lt.cfg", cfg(1, 1, False).replace("INVARIANT ConcatReadsOwnValues", "INVARIANT ConcatLegacyTables")),
+               label="self-test: concatenation keeping the table of permuted feature lists is refuted", expect_violation="ConcatLegacyTables")
     c = ctx.write_cfg("TS.cfg", cfg(maxn, searchn, True))
     path, out = ctx.tlc_emit_file("TrackSeq", c, label="TrackSeq ops to size %d, insertion search to size %d" % (maxn, searchn))
     n = ctx.pmap_emitted(path, replay, chunk=40)
